@@ -97,7 +97,7 @@ func (c07) Prefix(tier string, i int64) []uint64 {
 	return []uint64{0, uint64(x.file), uint64(x.loader), uint64(x.kind), uint64(x.off)}
 }
 
-var c07weights = InputWeights{Corpus: 2, Valid: 4, ICCDamaged: 2, Damaged: 4, Random: 1, SigJunk: 2, Polyglot: 2, Empty: 1}
+var c07weights = InputWeights{Corpus: 2, Valid: 4, ICCDamaged: 2, Damaged: 4, Random: 1, SigJunk: 2, Polyglot: 2, Empty: 1, ShortSOF: 1}
 
 func (c07) Run(t *tape.Tape, st *Stats) *Violation {
 	var in Input
